@@ -16,5 +16,6 @@ func TestCheck(t *testing.T) {
 	sched.RunStepped(r, "C05", r.Pick(150, 3000))
 	if r.ReplayFile() == "" {
 		sched.RunStress(r, "C05", r.Pick(6, 120))
+		runDemux(r)
 	}
 }
